@@ -29,6 +29,8 @@ EXPLANATION += " Round 9: R4 also carries C02.R10 (the scan range of one author'
 EXPLANATION += ' Round 10: R10 = C08.R5 (what is fingerprinted and sent is everything held: the plain scan yields every row, deletion markers included).'
 EXPLANATION += ' Round 11: (R11) the frame limit of the session codec is not below 2^30 (constant rule).'
 EXPLANATION += ' (R12, round 12) = C16.R15 (no per-document memo in the store outlives the document) and C08.R3 (the range fingerprint is the xor-fold over the range scan, whatever was asked before).'
+EXPLANATION += ' (R13, round 12) = C08.R6: the range count that decides the recursion anchor is the number of rows of the range scan.'
+EXPLANATION += " (R14, round 12) = C06.R4's failing-body rows: entries accepted before an unrelated request failed are still there to be reconciled."
 
 
 def r1(ctx):
@@ -627,6 +629,19 @@ def r12(ctx):
     C16.mem_state(ctx, "C01.R12")
     ctx.share("C01.R12", C08.r3, "C08.R3", keep=lambda k: "get_fingerprint" in k, floor=6)
 
+def r13(ctx):
+    """the recursion anchor of the reconciliation is decided by the number of local entries in the range: the range count evaluated
+    (= C08.R6) - a count that disagrees with the range scan sends everything where it should split, or splits where nothing is"""
+    from . import C08
+    C08.range_len(ctx, "C01.R13")
+    ctx.floor("C01.R13", 5)
+
+def r14(ctx):
+    """"the merge of the two starting sets": what a replica held when the session started it still holds when a later, unrelated
+    request fails - the shared write transaction survives a failing body (the failing-body rows of C06.R4; C04-4)"""
+    from . import C06
+    C06.share_failing_body(ctx, "C01.R14")
+
 def run(ctx):
     ctx.run_rule("C01.R1", r1)
     ctx.run_rule("C01.R2", r2)
@@ -640,3 +655,5 @@ def run(ctx):
     ctx.run_rule("C01.R10", r10)
     ctx.run_rule("C01.R11", r11)
     ctx.run_rule("C01.R12", r12)
+    ctx.run_rule("C01.R13", r13)
+    ctx.run_rule("C01.R14", r14)
